@@ -194,8 +194,9 @@ def block_verdict(b):
     if not m or b[-1] != "======":
         return False, None
     name = m.group(1)
-    end = ANSI.sub("", b[-2])
-    if not end.startswith("* end of test '%s'" % name[:40]) and not end.startswith("* end of test"):
+    # PCTextDriver writes the colour sequences with their terminating NUL
+    end = ANSI.sub("", b[-2]).replace("\x00", "")
+    if not end.startswith("* end of test '%s" % name[:40]):
         return False, None
     if end.rstrip().endswith("[SUCCESS]"):
         return True, True
@@ -261,7 +262,7 @@ def run(ck):
              "status_hist": {}, "blocks": 0}
     samples = []
     ntrees = 2 if q else 10
-    jobs_list = [1, 2, 3, 4, 8, 16] if q else list(range(1, 17))
+    jobs_list = [1, 2, 3, 5, 16] if q else list(range(1, 17))
     for tr in range(ntrees):
         nchecks = rng.choice([6, 12, 20]) if q else rng.choice([4, 10, 20, 40])
         root = ck.path("tree%d" % tr)
